@@ -1069,7 +1069,7 @@ func (e *Env) boundsRules() {
 						okLoop = true
 					}
 				}
-				if !okLoop && !isSlice && guardedIndex(ir.DomConds(bld, b), bld, index, x, xt) {
+				if !okLoop && !isSlice && guardedIndex(e.expandPredicateGuards(ir.DomConds(bld, b)), bld, index, x, xt) {
 					c.Ok("bounds", cons, pos, "index between 0 and the length by the dominating comparisons (lo <= i, i < len)")
 					continue
 				}
@@ -1927,6 +1927,12 @@ func (e *Env) lenAbove(bld *ir.Builder, b *ssa.BasicBlock, x ssa.Value, k int64,
 		return e.lengthByHelper(bld, b, v, k)
 	case *ssa.Parameter:
 		return e.lengthByCallers(v, k, depth+1)
+	case *ssa.UnOp:
+		// a package-level slice that is set once, by a literal, in the package initialiser
+		if g, ok := v.X.(*ssa.Global); ok && v.Op == token.MUL {
+			n, ok := ir.GlobalSliceLen(g)
+			return ok && n > k
+		}
 	}
 	return false
 }
@@ -1968,4 +1974,52 @@ func (e *Env) lengthByCallers(p *ssa.Parameter, k int64, depth int) bool {
 		}
 	}
 	return sites > 0
+}
+
+// expandPredicateGuards: a dominating condition that is the call of a boolean helper of the library
+// (if !t.has(n) { return undef }; return t[n]) holds only on the helper's paths that can return true; when there
+// is exactly one such path, its branch conditions and the comparison it returns hold at the access too, with the
+// helper's parameters replaced by the arguments of the call. The conditions are added to the list.
+func (e *Env) expandPredicateGuards(conds []*ir.Term) []*ir.Term {
+	out := append([]*ir.Term{}, conds...)
+	for _, g := range conds {
+		fn, _ := g.Obj.(*types.Func)
+		if g.Op != ir.OCall || fn == nil || fn.Pkg() == nil || !load.IsLib(fn.Pkg().Path()) {
+			continue
+		}
+		sf := e.P.SSAFunc(fn)
+		if sf == nil || len(sf.Blocks) == 0 || len(sf.Params) != len(g.Args) || sf.Signature.Results().Len() != 1 {
+			continue
+		}
+		if bt, ok := sf.Signature.Results().At(0).Type().Underlying().(*types.Basic); !ok || bt.Kind() != types.Bool {
+			continue
+		}
+		leaves, err := ir.Leaves(sf, ir.LeafOptions{Inline: e.inlineHelpers()})
+		if err != nil || len(leaves) == 0 {
+			continue
+		}
+		var truthy []*ir.Leaf
+		bad := false
+		for _, lf := range leaves {
+			if len(lf.Ret) != 1 {
+				bad = true
+				break
+			}
+			if r := lf.Ret[0]; r.Op == ir.OConst && r.C != nil && r.C.Kind() == constant.Bool && !constant.BoolVal(r.C) {
+				continue
+			}
+			truthy = append(truthy, lf)
+		}
+		if bad || len(truthy) != 1 {
+			continue
+		}
+		lf := truthy[0]
+		for _, lg := range lf.Guards {
+			out = append(out, ir.Subst(lg, g.Args))
+		}
+		if r := lf.Ret[0]; r.Op != ir.OConst {
+			out = append(out, ir.Subst(r, g.Args))
+		}
+	}
+	return out
 }
